@@ -44,7 +44,7 @@ impl Prop for C17 {
     fn budget(tier: Tier) -> Budget {
         match tier {
             Tier::Quick => Budget { cases: 4500, shards: 16 },
-            Tier::Thorough => Budget { cases: 60_000, shards: 16 },
+            Tier::Thorough => Budget { cases: 180000, shards: 16 },
         }
     }
 
